@@ -1,5 +1,5 @@
 (** C10 — futures run once, give every reader the same outcome, report status consistently. *)
-From Lisp Require Import Base ConcFuture ConcFutureProofs Lockset LocksetProofs ConcPins.
+From Lisp Require Import Base ConcFuture ConcFutureProofs Lockset LocksetProofs PinsCommon PinsFuture.
 From Lisp.Gen Require Import ConcActions.
 Local Open Scope nat_scope.
 
@@ -17,8 +17,12 @@ Theorem C10_source_builtins :
 Proof. exact status_builtins_actions. Qed.
 
 (** no data race on the flags: every access, on every path of every function, under f.mu *)
-Theorem C10_lock_discipline : discipline conc_shared conc_all conc_entry_points = true.
-Proof. exact conc_discipline. Qed.
+Theorem C10_lock_discipline : discipline flags_shared conc_all conc_entry_points = true.
+Proof. exact future_discipline. Qed.
+Theorem C10_flag_accesses_guarded : forall name code, In (name, code) conc_all ->
+  exists m, forall tr r, LocksetProofs.run (parse code) tr r ->
+    accesses_guarded flags_shared (final_table flags_shared conc_all) (mkL m None) tr.
+Proof. exact (all_fn_ok_guarded flags_shared conc_all future_all_fn_ok). Qed.
 Theorem C10_flag_access_exclusive : forall (Res : Type) (body : bool -> Res) progs sched t u ct cu,
   let s := frun Res body (finit Res progs) sched in
   nth_error (f_callers Res s) t = Some ct -> nth_error (f_callers Res s) u = Some cu ->
@@ -93,6 +97,7 @@ Proof. vm_compute. repeat split. Qed.
 
 Print Assumptions C10_source_body.
 Print Assumptions C10_lock_discipline.
+Print Assumptions C10_flag_accesses_guarded.
 Print Assumptions C10_flag_access_exclusive.
 Print Assumptions C10_body_once.
 Print Assumptions C10_same_outcome.
